@@ -15,7 +15,7 @@ D4 determinism: no clock / RNG is reachable from select_connection_idx - the dec
 D5 factor ranges (abstract interpretation with NaN tracking, for every field value): quality multiplier in [0.35, 1.1*1.03], RTT bonus in
    [1, 1.03], soft cap in [0.1, 1], none NaN; the cached multiplier keeps the range (closed writer set); in-flight cap >= 1 when defined.
 """
-from .. import dtable
+from .. import dtable, roles
 from ..absint import AbsInt, Entry, Num
 from ..ctx import CONN, full_slice_element, is_call, is_field, loop_of_element, sname
 from ..expr import show, strip_old, walk
@@ -108,9 +108,64 @@ def _loop(ctx, rule):
 _loop.cache = {}
 
 
-def _local(f, name):
-    ls = [l for l, n in f.names.items() if n == name and isinstance(l, int)]
-    return ls[0] if len(ls) == 1 else None
+def _roles(ctx, f):
+    """(current_score, best_score, best_idx, score) of the enhanced selector, found by what they do (sa/roles.py)."""
+    best = roles.running_extreme(ctx.w, f, None, tys=("f64",), hint="best_score")
+    bidx = roles.result_local(ctx.w, f, hint="best_idx")
+    cur = roles.option_latch(ctx.w, f, "f64", hint="current_score")
+    score = roles.assigned_from(ctx.w, f, best, hint="score") if best is not None else None
+    return cur, best, bidx, score
+
+
+def score_rows(ctx):
+    """Decision table of the competing score of one link: [(condition, sorted factor kinds, literal factors)] or (None, why)."""
+    f = ctx.w.fn(ENH)
+    if f is None:
+        return None, "enhanced selector not found"
+    key = ("C11rows", ctx.w.uid)
+    if key in _loop.cache:
+        return _loop.cache[key]
+    lp = _loop.cache.get(("C11", ctx.w.uid))
+    if lp is None:
+        lp = Loop(ctx, f)
+        _loop.cache[("C11", ctx.w.uid)] = lp
+    res = (None, lp.why)
+    if lp.ok:
+        cur, best, bidx, score = _roles(ctx, f)
+        pa = lp.pa
+        L = lp.link
+        use = None
+        if score is not None:
+            for (bb2, si2, s2) in _uses(f, score, lp.lp["body"]):
+                use = (bb2, si2)
+                break
+        if use is None:
+            res = (None, "the competing score (the value stored into the running best) was not found")
+        else:
+            try:
+                rows = dtable.expand(pa, pa.fa.val_local(score, use), pa.pc_at(*use), {lp.lp["switch"]})
+                out = []
+                for (c, x) in rows:
+                    kinds, consts = [], []
+                    for t in _factors(x, []):
+                        if is_call(t, stable=CONN + "::phase_weight") and t[2][0] == L:
+                            kinds.append("phase")
+                        elif t[0] == "cast" and is_call(strip_old(t[2]), stable=CONN + "::get_score") and strip_old(t[2])[2][0] == L:
+                            kinds.append("base")
+                        elif is_call(t, stable=E + "cc_soft_cap_multiplier") and t[2][0] == L:
+                            kinds.append("cap")
+                        elif is_call(t, stable=CONN + "::get_cached_quality_multiplier") and t[2][0] == L and t[2][1] == ("param", 3):
+                            kinds.append("quality")
+                        elif t[0] == "const" and isinstance(t[1], float):
+                            consts.append(t[1])
+                        else:
+                            kinds.append("?:" + show(t, f.names)[:40])
+                    out.append((c, sorted(kinds), sorted(consts)))
+                res = (out, "")
+            except dtable.NotEvaluable as e:
+                res = (None, "decision table not evaluable: %s" % e)
+    _loop.cache[key] = res
+    return res
 
 
 def d1_hysteresis(ctx):
@@ -119,12 +174,10 @@ def d1_hysteresis(ctx):
     if not lp:
         return
     f, pa, b = lp.f, lp.pa, lp.pa.bdd
-    cur = _local(f, "current_score")
-    best = _local(f, "best_score")
-    bidx = _local(f, "best_idx")
-    score = _local(f, "score")
+    cur, best, bidx, score = _roles(ctx, f)
     if None in (cur, best, bidx, score):
-        ctx.chk.missing("D1", "enhanced selector: locals current_score / best_score / best_idx / score", "")
+        ctx.chk.missing("D1", "enhanced selector: running best score / best index / competing score / record of the previous link's score",
+                        "found: %s" % {"previous-score record": cur, "running best": best, "result index": bidx, "competing score": score})
         return
     # --- per iteration: where current_score is recorded
     n = 0
@@ -197,9 +250,7 @@ def d2_gates(ctx):
     if not lp:
         return
     f, pa, b = lp.f, lp.pa, lp.pa.bdd
-    best = _local(f, "best_score")
-    bidx = _local(f, "best_idx")
-    score = _local(f, "score")
+    cur, best, bidx, score = _roles(ctx, f)
     # best update
     n = 0
     for d in pa.fa.defs.get(bidx, []):
@@ -251,31 +302,25 @@ def d2_gates(ctx):
         src = [x for x in walk(v) if is_call(x, name_contains="<impl [T]>::iter")] if v else []
         ok = bool(src) and strip_old(src[0][2][0]) == ("param", 1) and not any(is_call(x, name_contains=m) for x in walk(v) for m in ("::skip", "::take", "::filter", "::rev"))
         ctx.chk.ob("D2", "`any unconstrained` ranges over the whole slice", ok, "", key="D2:unconstrained-whole-slice")
-    # gate factor table
-    gl = _local(f, "gate_mult")
+    # gate factor table: the literal factor of the score product
+    rows, why = score_rows(ctx)
     ok = False
-    det = ""
-    if gl is not None and lp.WEAK is not None and lp.LOSS is not None:
-        use = None
-        for (bb2, si2, s2) in _uses(f, gl, lp.lp["body"]):
-            use = (bb2, si2)
-            break
-        if use:
-            v = pa.fa.val_local(gl, use)
-            try:
-                rows = dtable.expand(pa, v, pa.pc_at(*use), {lp.lp["switch"]})
-                q = b.AND(lp.ANY, b.OR(lp.WEAK, lp.LOSS))
-                ok = len(rows) >= 2
-                for (c, x) in rows:
-                    if x == ("const", 0.02, "f64"):
-                        ok = ok and pa.entails(c, q)
-                    elif x == ("const", 1.0, "f64"):
-                        ok = ok and pa.entails(c, b.NOT(q))
-                    else:
-                        ok = False
-                det = "; ".join("%s <= %s" % (show(x), pa.show(c, 3)[:120]) for c, x in rows)
-            except dtable.NotEvaluable as e:
-                det = str(e)
+    det = why
+    if rows is not None and lp.WEAK is not None and lp.LOSS is not None:
+        q = b.AND(lp.ANY, b.OR(lp.WEAK, lp.LOSS))
+        ok = len(rows) >= 2
+        det = ""
+        for (c, kinds, consts) in rows:
+            lit = 1.0
+            for v in consts:
+                lit *= v
+            if consts in ([0.02], [0.02, 1.0]):
+                ok = ok and pa.entails(c, q)
+            elif consts in ([], [1.0]):
+                ok = ok and pa.entails(c, b.NOT(q))
+            else:
+                ok = False
+            det += "x%s <= %s; " % (consts, pa.show(c, 2)[:80])
     ctx.chk.ob("D2", "gate factor = 0.02 iff an unconstrained link exists and this one is weak or loss-degraded, else 1.0", ok, det[:400], key="D2:gate-factor-table")
     C03.d6_phase_tables(ctx)
 
@@ -304,50 +349,24 @@ def _factors(e, out):
 def d3_score_formula(ctx):
     lp = _loop(ctx, "D3")
     if lp:
-        f, pa, b = lp.f, lp.pa, lp.pa.bdd
-        score = _local(f, "score")
-        L = lp.link
-        use = None
-        for (bb2, si2, s2) in _uses(f, score, lp.lp["body"]):
-            use = (bb2, si2)
-            break
+        pa, b = lp.pa, lp.pa.bdd
+        rows, why = score_rows(ctx)
         ok = False
-        det = ""
-        if use:
-            def keep(var):
-                return f.names.get(var[1]) in ("gate_mult",)
-            try:
-                rows = dtable.expand(pa, pa.fa.val_local(score, use), pa.pc_at(*use), {lp.lp["switch"]}, keep)
-                EQ = ("param", 4)
-                eq = pa.find(lambda a: a == EQ)
-                ok = len(rows) == 2 and len(eq) == 1
-                for (c, x) in rows:
-                    fs = _factors(x, [])
-                    kinds = []
-                    for t in fs:
-                        if is_call(t, stable=CONN + "::phase_weight") and t[2][0] == L:
-                            kinds.append("phase")
-                        elif t[0] == "cast" and is_call(strip_old(t[2]), stable=CONN + "::get_score") and strip_old(t[2])[2][0] == L:
-                            kinds.append("base")
-                        elif is_call(t, stable=E + "cc_soft_cap_multiplier") and t[2][0] == L:
-                            kinds.append("cap")
-                        elif is_call(t, stable=CONN + "::get_cached_quality_multiplier") and t[2][0] == L and t[2][1] == ("param", 3):
-                            kinds.append("quality")
-                        elif t[0] == "var" and f.names.get(t[1]) == "gate_mult":
-                            kinds.append("gate")
-                        else:
-                            kinds.append("?:" + show(t, f.names)[:40])
-                    withq = sorted(kinds) == sorted(["base", "phase", "quality", "cap", "gate"])
-                    noq = sorted(kinds) == sorted(["base", "phase", "cap", "gate"])
-                    if withq:
-                        ok = ok and len(eq) == 1 and pa.entails(c, eq[0][1])
-                    elif noq:
-                        ok = ok and len(eq) == 1 and pa.entails(c, b.NOT(eq[0][1]))
-                    else:
-                        ok = False
-                    det += "%s <= %s; " % (sorted(kinds), pa.show(c, 2)[:60])
-            except dtable.NotEvaluable as e:
-                det = str(e)
+        det = why
+        if rows is not None:
+            eq = pa.find(lambda a: a == ("param", 4))
+            ok = len(rows) >= 2 and len(eq) == 1
+            det = ""
+            for (c, kinds, consts) in rows:
+                withq = kinds == sorted(["base", "phase", "quality", "cap"])
+                noq = kinds == sorted(["base", "phase", "cap"])
+                if withq:
+                    ok = ok and len(eq) == 1 and pa.entails(c, eq[0][1])
+                elif noq:
+                    ok = ok and len(eq) == 1 and pa.entails(c, b.NOT(eq[0][1]))
+                else:
+                    ok = False
+                det += "%s x%s <= %s; " % (kinds, consts, pa.show(c, 2)[:60])
         ctx.chk.ob("D3", "score = get_score() as f64 * phase_weight * [cached quality iff the flag] * soft cap * gate factor, all of this link", ok, det[:400], key="D3:score-formula")
     sel = ctx.fn(SEL, "D3")
     if sel:
